@@ -174,14 +174,20 @@ def answer (line : String) : String :=
               let rest := n.dropWhile (· == ' ')
               (if (last ++ ['\n']).isPrefixOf rest then (sp, rest.drop (last.length + 1), true) else ([], n, false)) :: edev r []
             | _ :: r, last => edev r last
-          let dev := edev o.ops []
-          let opsE := runE pass (loadProg dt host banner) [] dev
+          -- … over the whole session when it ran to its end: login program followed by the change
+          -- script (the lines the device read beyond the modelled sends), every command answered
+          let whole := o.finished && errLines.isEmpty && tailReads.length ≤ o.rest.length
+          let full := if whole then ops else o.ops
+          let dev := edev full []
+          let prog := if whole then sessionProg dt host banner (applies == "1") tailReads else loadProg dt host banner
+          let opsE := runE pass prog [] dev
           let flat (l : List Str) : Str := (l.map crlf2lf).flatten
           let same := !o.finished ||
-            (flat (sshRun opsE).login == flat (sshRun o.ops).login && flat (sshRun opsE).config == flat (sshRun o.ops).config &&
-              sendsOf opsE == sendsOf o.ops)
+            (flat (sshRun opsE).login == flat (sshRun full).login && flat (sshRun opsE).config == flat (sshRun full).config &&
+              flat (sshRun opsE).change == flat (sshRun full).change &&
+              sendsOf opsE == (if whole then sendsOf (o.ops ++ tailPairs (pair tailReads o.rest)) else sendsOf o.ops))
           let b (x : Bool) : Str := if x then ['1'] else ['0']
-          s!"sends={hexLines (sendsOf ops)}\tfinished={hexLines [b o.finished]}\techoModel={hexLines [b same]}\tnoecho={hexLines [b (noEchoAtPasswordPrompt dev)]}\t{showSinks (sshRun ops)}"
+          s!"sends={hexLines (sendsOf ops)}\tfinished={hexLines [b o.finished]}\techoModel={hexLines [b same]}\twhole={hexLines [b whole]}\tnoecho={hexLines [b (noEchoAtPasswordPrompt dev)]}\t{showSinks (sshRun ops)}"
         | _, _, _, _, _, _, _, _ => "bad-input"
       | "nsx", [pre, user, pass, token, cookie, name, login, reqs, reps] =>
         match unhex pre, unhex user, unhex pass, unhex token, unhex cookie, unhex name, parseNsxLogin login,
